@@ -37,7 +37,8 @@ class C05(Check):
             '1-5 contents (NCCHs with distinct KeyY / crypto method so a shared engine would be visible), presence '
             'bitmaps incl. content indices >= 8 (second index byte) and indices the TMD lacks, encrypted/plain '
             'flags, common-key index 0-5, retail/dev, start offset 0 or inside a larger file, 0-4 tickets with other common-key '
-            'indices loaded into the same engine beforehand; per case one retail and one dev engine walking through 3-9 tickets '
+            'indices loaded into the same engine beforehand; a sibling archive with the same content index whose TMD lacks a present '
+            'content opened (and refused) first in the same process; per case one retail and one dev engine walking through 3-9 tickets '
             'whose indices come from a pool of 2-3 (returns to an earlier index with others in between); every section and '
             'content view read at random (offset, length); nested readers opened and read in random interleaved '
             'order; non-trivial = always')
@@ -64,6 +65,7 @@ class C05(Check):
                 'ticket_size': rng.pick([0x350, 0x350, 0x2AC, 0x2B0 + rng.randrange(64)]),
                 'start': rng.pick([0, 0, 0x40, 0x1234]), 'bad_index': rng.pick([None, None, None, 5, 0x20]),
                 'tamper': rng.pick([None, None, None, 'magic', 'tmd']),
+                'sibling': rng.pick([0, 0, 1, 2, 3]),
                 # tickets the SAME engine loaded before this archive (common-key index of each): the title key must not depend on them
                 'prior': [rng.pick([0, 0, ck, ck, 1, 2, 3, 4, 5]) for _ in range(rng.randint(1, 4))] if rng.chance(0.6) else [],   # histories that return to the archive's own index matter
                 # contents that are not NCCHs (sizes: every multiple of 16, aligned to 64 or not), read with load_contents=False
@@ -107,6 +109,18 @@ class C05(Check):
         elif case['tamper'] == 'tmd':
             tmd_off = ciabuild.align(0x2020) + ciabuild.align(len(cert)) + ciabuild.align(len(ticket))
             cia[tmd_off + 0x140 + 0xC4 + 5] ^= 1
+        # a rejected SIBLING first, in the same process: the same archive (same content index, same contents) whose TMD lacks one
+        # of the contents the index marks present - it must be refused, and refusing it must leave no trace for the archive itself
+        sib_out = None
+        if case.get('sibling') and len(case['present']) >= 2 and case['tamper'] is None:
+            drop = case['present'][case['sibling'] % len(case['present'])]
+            tmd_bad = ciabuild.build_tmd(tid, [r for r in records if r[1] != drop], rng=Rng(case['seed'] + 7))
+            cia_bad = ciabuild.build_cia(cert, ticket, tmd_bad, contents, set(case['present']), meta, Rng(case['seed'] + 8), extra)
+            try:
+                CIAReader(io.BytesIO(cia_bad), crypto=e.CryptoEngine(dev=dev), dev=dev, load_contents=False).close()
+                sib_out = 'ok'
+            except Exception as ex:  # noqa
+                sib_out = 'e:' + exc_name(ex)
         start = case['start']
         file_bytes = b'\xEE' * start + bytes(cia) + b'\xDD' * 9
         base = io.BytesIO(file_bytes)
@@ -137,6 +151,13 @@ class C05(Check):
         if wf and rd is None:
             mon.append(f'well-formed CIA rejected: {outs[0]}')
             key = 'cia.init'
+        if sib_out is not None:
+            info_d['rejected sibling opened first'] = 1
+            outs.append('sibling ' + sib_out)
+            models.append('sibling ' + drv.ask(('cia-open', cia_bad, 0, int(dev), blob)))
+            if sib_out != 'e:InvalidCIAError':
+                mon.append(f'the sibling archive whose TMD lacks content {drop} gave {sib_out} instead of InvalidCIAError')
+                key = 'cia.missing-content'
         if extra and case['tamper'] is None:
             if rd is not None:
                 mon.append('an archive whose content index names a content the TMD lacks was accepted')
